@@ -1,7 +1,7 @@
 (* EngineSpecProofs.v — the executable predicates of Spec/SpecEngine.v hold of every
    observation the model produces. *)
 From Flyt Require Import Base Script FlowTable Engine EngineCorr EngineFacts BaseFacts
-     Lifecycle LifecycleProofs SpecC18 SpecEngine C18Proofs C04Proofs.
+     Lifecycle LifecycleProofs SpecC18 SpecEngine C18Proofs C04Proofs BatchConc BatchConcFacts.
 
 Lemma lrun_canc tbl : forall evs st canc st' canc',
     lrun tbl st canc evs = Some (st', canc') -> canc' = canc || existsb ev_cancel evs.
@@ -154,9 +154,9 @@ Proof.
   induction k as [|k IH]; intros s; cbn [model_runs eobs_of_model spec_fail_last_runs]; auto.
   destruct (model_run sc s) as [[s' oc]|] eqn:E; cbn [eobs_of_model spec_fail_last_runs]; auto.
   unfold model_run in E.
-  pose proof (run_ext _ _ conc_unused_ext _ _ _ _ _ _ E) as [evs [L [C _]]].
+  pose proof (run_ext _ _ (gated_exec_ext _ _) _ _ _ _ _ _ E) as [evs [L [C _]]].
   rewrite L, skipn_app_exact.
-  rewrite (fail_last_ok_model _ _ _ _ _ _ _ _ _ conc_unused_ext E L). cbn [andb].
+  rewrite (fail_last_ok_model _ _ _ _ _ _ _ _ _ (gated_exec_ext _ _) E L). cbn [andb].
   rewrite <- C. apply IH.
 Qed.
 
@@ -176,9 +176,6 @@ Qed.
 (* ------------------------------------------------------------ routing (C03, C10) *)
 From Flyt Require Import Flatten FlattenProofs SpecRoute.
 
-Lemma conc_unused_nt : forall c k st n s items s' rs,
-    conc_unused c k st n s items = (s', rs) -> ntext s s'.
-Proof. unfold conc_unused. intros. inv H. apply ntext_refl. Qed.
 
 Lemma wf_events_stores_ok evs : wf_events evs -> stores_ok evs = true.
 Proof.
@@ -202,11 +199,11 @@ Proof.
   destruct (model_run sc s) as [[s' oc]|] eqn:E; cbn [eobs_of_model spec_route_runs]; auto.
   unfold model_run in E.
   rewrite (outcome_pair_roundtrip _ _ _ _ _ _ _ _ E).
-  pose proof (run_ext _ _ conc_unused_ext _ _ _ _ _ _ E) as [evs [L [C W]]].
+  pose proof (run_ext _ _ (gated_exec_ext _ _) _ _ _ _ _ _ E) as [evs [L [C W]]].
   rewrite L, skipn_app_exact. rewrite (wf_events_stores_ok _ W). cbn [andb].
   rewrite <- C. rewrite IH, andb_true_r.
   destruct (cancelled s') eqn:Hc'; auto.
-  destruct (run_sim _ _ conc_unused_ext conc_unused_nt _ (scen_vis_table _ Hvis) _ _ _ _ _ E Hc'
+  destruct (run_sim _ _ (gated_exec_ext _ _) (gated_exec_nt _ _) _ (scen_vis_table _ Hvis) _ _ _ _ _ E Hc'
               FUEL FUEL [] (le_n _) (le_S _ _ (le_n _))) as [evs' [L' R]].
   assert (evs' = evs) by (apply (app_inv_head (log s)); now rewrite <- L, <- L'). subst evs'.
   unfold route_ok. destruct oc as [a|e]; [|exact R].
